@@ -27,6 +27,8 @@ n=0
 for d in /verif/seeded/C*/; do
   n=$((n+1)); [ $((n % NSH)) -eq $SH ] || continue
   s=$(basename $d)
+  # ONLY_NEW=1: skip changes that already have a row in matrix.json
+  if [ "${ONLY_NEW:-0}" = "1" ] && grep -q "\"$s\":" /verif/seeded/matrix.json 2>/dev/null; then continue; fi
   cd $MX/repo && git checkout -q -- . && git apply $d/patch.diff || { echo "no apply $s"; continue; }
   (cd $MX/verif/mc && cargo build --release --offline -q 2>/dev/null) || { echo "build failed $s"; continue; }
   caught=""
